@@ -38,7 +38,7 @@ type c14Case struct {
 func genC14(t *rapid.T) c14Case {
 	var c c14Case
 	c.Family = rapid.SampledFrom([]string{"value", "value", "throw", "syntax", "loop", "loop", "slow", "recursion", "cyclic", "chain"}).Draw(t, "family")
-	c.Variant = rapid.IntRange(0, 5).Draw(t, "variant")
+	c.Variant = rapid.IntRange(0, 7).Draw(t, "variant")
 	c.Encoding = rapid.SampledFrom([]string{"", "", "none", "empty", "base64"}).Draw(t, "encoding")
 	c.Placement = rapid.SampledFrom([]string{"run", "action", "condition", "condition-not"}).Draw(t, "placement")
 	c.Source = rapid.SampledFrom([]string{"control", "control", "default", "off", "locoff"}).Draw(t, "source")
@@ -61,6 +61,18 @@ func genC14(t *rapid.T) c14Case {
 func (c c14Case) script() (code string, want interface{}) {
 	switch c.Family {
 	case "value":
+		if c.Encoding == "base64" || c.Encoding == "none" {
+			// (these cases double as: values in which one object occurs
+			// twice - shared, not circular)
+			switch c.Variant % 3 {
+			case 0:
+				return "var a = {n: x}; ({p: a, q: a})", M{"p": M{"n": c.X}, "q": M{"n": c.X}}
+			case 1:
+				return "var a = [x, s]; [a, a]", A{A{c.X, c.S}, A{c.X, c.S}}
+			default:
+				return "var leaf = {s: s}; var l = {leaf: leaf}; var r = {leaf: leaf}; ({l: l, r: r})", M{"l": M{"leaf": M{"s": c.S}}, "r": M{"leaf": M{"s": c.S}}}
+			}
+		}
 		switch c.Variant % 6 {
 		case 0:
 			return "x + 1", c.X + 1
@@ -136,7 +148,12 @@ func (c c14Case) script() (code string, want interface{}) {
 		// a value (or an argument of a location function) that refers
 		// to itself: it has no JSON form, so it cannot be a result; what
 		// matters is that the attempt ends (as an error, most likely)
-		switch c.Variant % 6 {
+		switch c.Variant % 8 {
+		case 6:
+			// a function is an object, too
+			return "var f = function() {}; f.me = f; f", nil
+		case 7:
+			return "var f = function() {}; f.o = {}; f.o.self = f.o; ({g: f})", nil
 		case 4:
 			// a cycle that the script's own JSON would not notice
 			return "var o = {}; o.self = o; o.toJSON = function() { return 1; }; o", nil
